@@ -50,11 +50,20 @@ func c09Case(g *Gen, m string, x *big.Int, K, T uint) {
 	before := new(big.Int).Set(x)
 	// history: the terms of an earlier decomposition are overwritten by the caller; a second call must
 	// not be affected (no term may be shared storage)
-	for _, t := range decomposer(m, K, T).Decompose(new(big.Int).Set(x)) {
-		c19scribble(t.D)
+	var s dict.Sum
+	var d []*big.Int
+	if pn := safe(func() {
+		for _, t := range decomposer(m, K, T).Decompose(new(big.Int).Set(x)) {
+			c19scribble(t.D)
+		}
+		s = decomposer(m, K, T).Decompose(x)
+		d = s.Dictionary()
+	}); pn != "" {
+		if !g.notesViolation() {
+			g.Notes = append(g.Notes, fmt.Sprintf("VIOLATION: %s decomposition (K=%d, T=%d) of %v panics: %s", m, K, T, before, pn))
+		}
+		return
 	}
-	s := decomposer(m, K, T).Decompose(x)
-	d := s.Dictionary()
 	g.Line("c09", m, before.String(), fmt.Sprint(K), fmt.Sprint(T), encTerms(s), encInts(d), b01(before.Cmp(x) == 0))
 	g.Count("m=" + m)
 }
